@@ -18,6 +18,13 @@
     float32, int64, 1-D, 3-D, strided and row views; chains continued across calls; the canonically re-ordered run is
     replayed through the model's deterministic sampler (Gibbs.b_gibbs_steps / p_gibbs_steps) and storage model
     (Gibbs.gibbs_call with its same_dtype flag).
+(e) same-object histories: after the first pass the parameters of the SAME RBM object are changed (in-place add_,
+    data.copy_, rebinding .data, load_state_dict, new nn.Parameter); tables are rebuilt and (a), (b) and traces re-run.
+(f) STATISTICAL TESTS that always run (Hoeffding, delta = 1e-9 per cell): sample(k, num_samples) without initial_state
+    follows kernel^k given its own observed start draw (nothing demanded of the start distribution); a large batch
+    (2^nv * 4796 chains) follows kernel^k on each of 16 row segments; two successive calls without reseeding, and
+    neighbouring chains of one call, agree with frequency sum_s K(v0,s)^2; a chain continued over two 1-step calls
+    follows kernel^2.
 (d) thorough tier (and the failing-input search): STATISTICAL TEST — empirical law of sample(k=1,2,
     initial_state) over 2e5 chains vs kernel^k with a Hoeffding bound at delta = 1e-9 per cell."""
 import itertools, math, time
@@ -96,9 +103,50 @@ class Net:
         self.per = 3 if self.purif else 2
         self._tables()
 
+    HOWS = ("inplace add_", "data.copy_", "rebind .data", "load_state_dict", "new nn.Parameter")
+
+    def pnames(self):
+        return ["weights_W", "weights_U", "visible_bias", "hidden_bias", "aux_bias"] if self.purif else \
+               ["weights", "visible_bias", "hidden_bias"]
+
+    def mutate(self, ctx, how, explicit=None):
+        """Same-object history: change the parameters of the live RBM (never rebuilding the state) the way training,
+        loading or a user would, then rebuild the reference tables from what the object now holds."""
+        import torch
+        if explicit is None:
+            fresh = draw_params(ctx, self.kind, self.nv, self.nh, self.na)
+        else:
+            fresh = [np.asarray(p, dtype=float) for p in explicit]
+        names = self.pnames()
+        rbm = self.rbm
+        if how == "load_state_dict":
+            sd = dict(rbm.state_dict())
+            for n, arr in zip(names, fresh):
+                sd[n] = torch.tensor(arr, dtype=torch.double)
+            rbm.load_state_dict(sd)
+        else:
+            for n, arr in zip(names, fresh):
+                par = getattr(rbm, n)
+                t = torch.tensor(arr, dtype=torch.double)
+                if how == "inplace add_":
+                    par.data.add_(t - par.data)
+                elif how == "data.copy_":
+                    par.data.copy_(t)
+                elif how == "rebind .data":
+                    par.data = t
+                else:
+                    setattr(rbm, n, torch.nn.Parameter(t, requires_grad=False))
+        self.params = [getattr(rbm, n).data.detach().numpy().astype(float).copy() for n in names]
+        self.history = getattr(self, "history", []) + [how]
+        for attr in ("impl_conds", "K_impl", "pi", "unobserved"):
+            if hasattr(self, attr):
+                delattr(self, attr)
+        self._tables()
+        ctx.count("history:" + how)
+
     def case(self, **extra):
         c = {"state": self.kind, "nv": self.nv, "nh": self.nh, "na": self.na if self.purif else 0,
-             "params": [p.tolist() for p in self.params]}
+             "params": [p.tolist() for p in self.params], "history": list(getattr(self, "history", []))}
         c.update(extra)
         return c
 
@@ -140,20 +188,27 @@ class Net:
         return self.PV[idx_of(h_rows), ai]
 
 
-def draw_net(ctx, kind, nv, nh, na):
+def draw_params(ctx, kind, nv, nh, na):
     if kind == "density":
         params = gen.prbm_params(ctx, nv, nh, na)
-        php = gen.prbm_params(ctx, nv, nh, na, phase=True)
         biases = params[2:]
     else:
         params = gen.brbm_params(ctx, nv, nh)
-        php = gen.brbm_params(ctx, nv, nh) if kind == "complex" else None
         biases = params[1:]
     # the quantifier allows magnitudes up to ~30: in a third of the draws one bias entry is large (log-uniform 1e-3..30)
     if ctx.rng.random() < 0.33:
         bvec = biases[int(ctx.rng.integers(len(biases)))]
         bvec[int(ctx.rng.integers(len(bvec)))] = float(np.exp(ctx.rng.uniform(np.log(1e-3), np.log(30.0))) * ctx.rng.choice([-1.0, 1.0]))
         ctx.count("large_bias_draw")
+    return list(params)
+
+
+def draw_net(ctx, kind, nv, nh, na):
+    params = draw_params(ctx, kind, nv, nh, na)
+    if kind == "density":
+        php = gen.prbm_params(ctx, nv, nh, na, phase=True)
+    else:
+        php = gen.brbm_params(ctx, nv, nh) if kind == "complex" else None
     return Net(kind, nv, nh, na, params, php)
 
 
@@ -579,12 +634,16 @@ def check_sampler(ctx, net, ks=(0, 1, 2, 3)):
             via = ("sample", "gibbs_steps", "sample(num_samples ignored)")[(fi + int(overwrite)) % 3]
             one_run(ctx, net, k, overwrite, v0.clone() if form in ("2d", "1d", "3d") else v0, via, ctx.torch_seed(), form=form)
     # sample(k, num_samples) without initial_state: shape, 0/1; the chain is tied to the start state when that is observable
-    for k, n in ((0, 4), (2, 5)):
+    for k, n in ((0, 4), (2, 5), (1, None)):
         case = net.case(part="sampler", k=k, num_samples=n, via="sample(num_samples)")
-        what = "sample(k=%d, num_samples=%d)" % (k, n)
+        what = "sample(k=%d, num_samples=%s)" % (k, n)
         seed = ctx.torch_seed()
         with BernoulliSpy() as spy:
-            ok, res = ctx.call(what, case, lambda: net.state.sample(k, n))
+            if n is None:                               # default: one sample
+                ok, res = ctx.call(what, case, lambda: net.state.sample(k))
+                n = 1
+            else:
+                ok, res = ctx.call(what, case, lambda: net.state.sample(k, n))
         if not ok:
             continue
         result = tnp(res) if hasattr(res, "detach") else np.asarray(res)
@@ -601,7 +660,10 @@ def check_sampler(ctx, net, ks=(0, 1, 2, 3)):
         if tied:
             ctx.traces += 1
         else:
-            ctx.count("random_start_run_not_tied_to_draws")     # informational: the start state is not part of the statement
+            # not tied draw by draw to exactly k steps from its own start draw: decided by the law test conditional on
+            # the start draw (nothing is demanded of the start distribution itself)
+            ctx.count("random_start_run_not_tied_to_draws")
+            net.random_start_untied = True
 
 
 # ----------------------------------------------------------------------------- (d) statistical test
@@ -632,18 +694,171 @@ def check_statistical(ctx, net, n_chains=200000):
             {"state": net.kind, "nv": net.nv, "k": k, "chains": n_chains, "max_deviation": dev, "hoeffding_bound": eps})
 
 
+def hoeffding_eps(n):
+    return math.sqrt(math.log(2.0 / HOEFFDING_DELTA) / (2.0 * max(int(n), 1)))
+
+
+def law_by_start(ctx, net, what, case, start2, res2, k, segments=None, min_rows=800):
+    """STATISTICAL TEST: for every start state s (and every row segment), the empirical law of the final states of the
+    chains started in s must be row s of kernel^k (Hoeffding bound, delta = 1e-9 per cell, for the group size)."""
+    M = start2.shape[0]
+    Kk = np.linalg.matrix_power(net.K_exact, k)
+    si, ri = idx_of(start2), idx_of(res2)
+    segments = segments or [("all rows", 0, M)]
+    worst = None
+    for name, lo, hi in segments:
+        for s in range(len(net.V)):
+            rows = np.nonzero(si[lo:hi] == s)[0] + lo
+            if len(rows) < min_rows:
+                continue
+            freq = np.bincount(ri[rows], minlength=len(net.V)) / float(len(rows))
+            dev, eps = float(np.max(np.abs(freq - Kk[s]))), hoeffding_eps(len(rows))
+            ctx.count("statistical_cells", len(net.V))
+            if worst is None or dev - eps > worst[0]:
+                worst = (dev - eps, name, s, len(rows), freq, dev, eps)
+    if worst is None:
+        return True
+    _, name, s, nrows, freq, dev, eps = worst
+    return ctx.require(what, dev <= eps, case,
+                       {"segment": name, "start": net.V[s].tolist(), "chains in group": nrows, "empirical": freq.tolist(),
+                        "kernel^k row": Kk[s].tolist(), "max deviation": dev, "bound": eps})
+
+
+def check_random_start(ctx, net, n_chains=200000):
+    """sample(k, num_samples) WITHOUT initial_state: given the start state it drew (first torch.bernoulli result of shape
+    (num_samples, nv)), the result must follow kernel^k.  Nothing is demanded of the start distribution."""
+    for k in (1, 2):
+        seed = ctx.torch_seed()
+        case = net.case(part="statistical test (random start)", k=k, num_samples=n_chains, torch_seed=seed)
+        with BernoulliSpy() as spy:
+            if k == 1:
+                ok, res = ctx.call("sample(k, num_samples)", case, lambda: net.state.sample(k, n_chains))
+            else:
+                ok, res = ctx.call("sample(k=, num_samples=)", case, lambda: net.state.sample(k=k, num_samples=n_chains))
+        if not ok:
+            continue
+        r = tnp(res)
+        if not ctx.require("sample(k, num_samples): result has shape (num_samples, nv) with 0/1 entries",
+                           r.shape == (n_chains, net.nv) and is01(r), case, list(r.shape)):
+            continue
+        c0 = spy.calls[0]["out"] if spy.calls else None
+        if c0 is None or np.shape(c0) != (n_chains, net.nv) or not is01(c0):
+            ctx.count("random_start_not_observed")
+            continue
+        law_by_start(ctx, net, "STATISTICAL TEST (Hoeffding, delta=1e-9 per cell): law of sample(k, num_samples) given its own "
+                     "start draw == kernel^k (exactly k steps after the start state is drawn)", case, c0, r, k)
+        ctx.extra["random_start_tests"] = ctx.extra.get("random_start_tests", 0) + 1
+
+
+def check_big_batch(ctx, net, reps=4796):
+    """More chains than any plausible block size: 2^nv * 4796 rows cycling through all start states.  Trace tie as usual;
+    the law is tested separately on 16 consecutive segments of the rows, so that no part of a large batch is exempt."""
+    import torch
+    if net.nv < 2:
+        return
+    M = len(net.V) * reps
+    start = np.tile(net.V, (reps, 1))
+    for k, overwrite in ((1, False), (2, True)):
+        v0 = torch.tensor(start, dtype=torch.double)
+        seed = ctx.torch_seed()
+        case = net.case(part="large batch", k=k, overwrite=overwrite, chains=M, torch_seed=seed,
+                        start="all 2^nv states repeated %d times" % reps)
+        what = "sample(k=%d, initial_state=<%d chains>, overwrite=%s)" % (k, M, overwrite)
+        with BernoulliSpy() as spy:
+            ok, res = ctx.call(what, case, lambda: net.state.sample(k, initial_state=v0, overwrite=overwrite))
+        if not ok:
+            continue
+        r = tnp(res)
+        if not ctx.require(what + ": result is a 0/1 array with the shape of the start state", r.shape == (M, net.nv) and is01(r),
+                           case, list(r.shape)):
+            continue
+        if overwrite:
+            ctx.require("overwrite=True updates the caller's start state in place", bool(np.array_equal(tnp(v0), r)), case,
+                        {"call": what})
+        else:
+            ctx.require(what + ": overwrite=False leaves the caller's start state untouched",
+                        bool(np.array_equal(tnp(v0), start)), case)
+        steps = verify_run(ctx, net, case, spy.calls, start, r, k, what)
+        if steps is not None:
+            ctx.traces += 1
+        # M = 2^nv * 4796 leaves a remainder of several hundred to several thousand rows for block sizes 1000, 1024,
+        # 2048, 4096, 5000, 8192, 10000; 16 segments of ~300 chains per start state each
+        q = M // 16
+        segs = [("rows %d..%d" % (i * q, (i + 1) * q if i < 15 else M), i * q, (i + 1) * q if i < 15 else M) for i in range(16)]
+        law_by_start(ctx, net, "STATISTICAL TEST (Hoeffding, delta=1e-9 per cell): every part of a large batch of chains follows "
+                     "kernel^k", case, start, r, k, segments=segs, min_rows=150)
+        ctx.count("large_batch_runs")
+
+
+def check_independence(ctx, net, n=20000, n_law=100000):
+    """Successive calls (NO reseeding in between) and different chains of one call use independent randomness:
+    (i) two sample(1, v0) calls on equal rows agree row-wise with probability q = sum_s K(v0,s)^2;
+    (ii) neighbouring rows of one call agree with the same probability; (iii) the k = 2 law as two 1-step calls."""
+    import torch
+    K = net.K_exact
+    s0 = int(ctx.rng.integers(len(net.V)))
+    seed = ctx.torch_seed()
+    case = net.case(part="independence of calls", start=net.V[s0].tolist(), torch_seed=seed, chains=n)
+    v0 = torch.tensor(np.repeat(net.V[s0:s0 + 1], n, axis=0), dtype=torch.double)
+    ok, out = ctx.call("two successive sample(1, initial_state) calls", case,
+                       lambda: (tnp(net.state.sample(1, initial_state=v0)), tnp(net.state.sample(1, initial_state=v0))))
+    if not ok:
+        return
+    r1, r2 = out
+    if r1.shape != (n, net.nv) or r2.shape != (n, net.nv) or not (is01(r1) and is01(r2)):
+        return                                      # reported by the trace checks
+    q = float(np.sum(K[s0] ** 2))
+    agree = float(np.mean(np.all(r1 == r2, axis=1)))
+    ctx.require("STATISTICAL TEST (Hoeffding, delta=1e-9): two successive sample(1, v0) calls are independent "
+                "(row-wise agreement frequency == sum_s K(v0,s)^2)", abs(agree - q) <= hoeffding_eps(n), case,
+                {"agreement": agree, "expected": q, "bound": hoeffding_eps(n), "identical results": bool(np.array_equal(r1, r2))})
+    m = (n // 2) * 2
+    agree_rows = float(np.mean(np.all(r1[0:m:2] == r1[1:m:2], axis=1)))
+    ctx.require("STATISTICAL TEST (Hoeffding, delta=1e-9): different chains of one call are independent "
+                "(agreement frequency of neighbouring rows == sum_s K(v0,s)^2)", abs(agree_rows - q) <= hoeffding_eps(m // 2), case,
+                {"agreement": agree_rows, "expected": q, "bound": hoeffding_eps(m // 2)})
+    # the 2-step law as two 1-step calls (chain continued across calls), no reseeding in between
+    vb = torch.tensor(np.repeat(net.V[s0:s0 + 1], n_law, axis=0), dtype=torch.double)
+    ok, r = ctx.call("sample(1, initial_state=sample(1, initial_state=v0))", case,
+                     lambda: tnp(net.state.sample(1, initial_state=net.state.sample(1, initial_state=vb))))
+    if ok and r.shape == (n_law, net.nv) and is01(r):
+        law_by_start(ctx, net, "STATISTICAL TEST (Hoeffding, delta=1e-9 per cell): a chain continued across two 1-step calls "
+                     "follows kernel^2", dict(case, chains=n_law), tnp(vb), r, 2)
+    ctx.count("independence_checked")
+
+
+def check_history(ctx, net, hows):
+    """Same-object histories: after the first pass (which has exercised every method, so anything lazily cached is
+    cached) the parameters of the SAME object are changed; conditionals, kernel and sampler must follow."""
+    import torch
+    for how in hows:
+        ok, _ = ctx.call("parameter update (%s)" % how, net.case(part="history"), lambda: net.mutate(ctx, how))
+        if not ok:
+            return
+        if np.max(net.log_marg_v) > 600 or not np.all(np.isfinite(net.logJ)):
+            ctx.count("skipped_overflow")
+            continue
+        check_conditionals(ctx, net)
+        if hasattr(net, "impl_conds"):
+            check_kernel(ctx, net)
+        rows = net.V[ctx.rng.integers(len(net.V), size=3)]
+        one_run(ctx, net, 1, False, torch.tensor(rows, dtype=torch.double), "gibbs_steps", ctx.torch_seed())
+        one_run(ctx, net, 2, True, torch.tensor(rows, dtype=torch.double), "sample", ctx.torch_seed())
+        one_run(ctx, net, 1, False, torch.tensor(net.V, dtype=torch.double), "sample", ctx.torch_seed())
+        if getattr(net, "unobserved", False):
+            check_statistical(ctx, net)
+
+
 # ----------------------------------------------------------------------------- driver
-def check_net(ctx, net, statistical=False):
-    E = -net.log_marg_v
-    if np.max(-E) > 600 or not np.all(np.isfinite(net.logJ)):
+def check_net(ctx, net, statistical=False, extended=False, hows=None):
+    if np.max(net.log_marg_v) > 600 or not np.all(np.isfinite(net.logJ)):
         ctx.count("skipped_overflow")
         return
     biases = net.params[2:] if net.purif else net.params[1:]
     all_nonzero = all(bool(np.all(p != 0)) for p in biases)
     ctx.count("state:" + net.kind)
     ctx.count("shape:%dx%d%s" % (net.nv, net.nh, ("x%d" % net.na) if net.purif else ""))
-    if check_conditionals(ctx, net):
-        pass
+    check_conditionals(ctx, net)
     distinct = False
     if hasattr(net, "impl_conds"):
         distinct = bool(check_kernel(ctx, net))
@@ -651,10 +866,26 @@ def check_net(ctx, net, statistical=False):
     if statistical or getattr(net, "unobserved", False):
         check_statistical(ctx, net)
         if getattr(net, "unobserved", False):
-            ctx.extra["note_bernoulli"] = ("torch.bernoulli was not observed during sampling; the per-draw conditional check "
-                                           "was replaced by the statistical test of the k-step law for those nets")
+            ctx.extra["note_bernoulli"] = ("torch.bernoulli calls could not be read as exact block-Gibbs steps for some nets; "
+                                           "those nets were decided by the statistical test of the k-step law")
+    if hasattr(net, "K_impl"):
+        if extended or getattr(net, "random_start_untied", False):
+            check_random_start(ctx, net)
+        if extended:
+            check_big_batch(ctx, net)
+        check_independence(ctx, net)
     ctx.case({"state": net.kind, "nv": net.nv, "nh": net.nh, "na": net.na if net.purif else 0,
               "p00": float(net.params[0][0, 0]), "b0": float(biases[0][0])}, nontrivial=all_nonzero and distinct)
+    if hows is None:
+        i = ctx.hist.get("history_nets", 0)
+        hows = [Net.HOWS[(2 * i) % len(Net.HOWS)], Net.HOWS[(2 * i + 1) % len(Net.HOWS)]]
+    ctx.count("history_nets")
+    check_history(ctx, net, hows)
+
+
+# fixed cases that always run first: every state type, with the large-batch trace, the random-start law test,
+# the independence tests and every kind of same-object parameter update
+FIXED_FIRST = (("positive", 2, 2, 0), ("density", 2, 1, 1), ("complex", 3, 2, 0))
 
 
 def shapes(ctx):
@@ -668,6 +899,9 @@ def shapes(ctx):
 
 
 def run(ctx):
+    for kind, nv, nh, na in FIXED_FIRST:
+        ctx.torch_seed()
+        check_net(ctx, draw_net(ctx, kind, nv, nh, na), extended=True, hows=list(Net.HOWS))
     bsh, psh = shapes(ctx)
     draws = 10 if ctx.thorough else 2
     for (nv, nh, _) in bsh:
@@ -683,7 +917,7 @@ def run(ctx):
         for kind, nv, nh, na in (("positive", 2, 3, 0), ("positive", 3, 2, 0), ("complex", 3, 3, 0),
                                  ("density", 2, 2, 1), ("density", 3, 2, 2)):
             net = draw_net(ctx, kind, nv, nh, na)
-            check_net(ctx, net, statistical=True)
+            check_net(ctx, net, statistical=True, extended=True)
 
 
 def search(ctx, broken, budget):
@@ -694,7 +928,7 @@ def search(ctx, broken, budget):
              [("density", nv, nh, na) for nv in range(1, 4) for nh in range(1, 3) for na in range(1, 3)] + \
              [("complex", 2, 2, 0)]
     for i, (kind, nv, nh, na) in enumerate(combos):
-        check_net(ctx, draw_net(ctx, kind, nv, nh, na), statistical=(nv in (2, 3) and i % 3 == 0))
+        check_net(ctx, draw_net(ctx, kind, nv, nh, na), statistical=(nv in (2, 3) and i % 3 == 0), extended=(nv == 2 and i % 4 == 0))
         if len(ctx.failures) > n0:
             return ctx.failures[n0]
         if time.time() - t0 > budget:
@@ -709,5 +943,18 @@ def replay(ctx, rec):
         print("replay: no case recorded; running the generated cases")
         return run(ctx)
     print("replay of", kind, case.get("nv"), case.get("nh"), case.get("na"), case.get("part"))
-    net = Net(kind, case["nv"], case["nh"], case.get("na", 0), case["params"])
-    check_net(ctx, net, statistical=(case.get("part") == "statistical test"))
+    hist = case.get("history") or []
+    part = str(case.get("part"))
+    ext = part.startswith(("statistical test (random", "large batch"))
+    if hist:
+        # same-object history: first pass on freshly drawn parameters (primes whatever the object caches), then the
+        # recorded kinds of update, the last one to the recorded parameters
+        net = draw_net(ctx, kind, case["nv"], case["nh"], case.get("na", 0))
+        check_net(ctx, net, hows=[])
+        for how in hist[:-1]:
+            net.mutate(ctx, how)
+        net.mutate(ctx, hist[-1], explicit=case["params"])
+        check_net(ctx, net, statistical=part.startswith("statistical test"), extended=ext, hows=[])
+    else:
+        net = Net(kind, case["nv"], case["nh"], case.get("na", 0), case["params"])
+        check_net(ctx, net, statistical=part.startswith("statistical test"), extended=ext, hows=[])
